@@ -1755,3 +1755,916 @@ func exprKey(v ssa.Value, subst map[*ssa.Parameter]string, depth int) string {
 	}
 	return "?"
 }
+
+// ruleG8 — an index that is an untrusted value read from the input (not a loop counter) selects an element
+// only after a dominating comparison on that value, unless it has so few bits that it cannot exceed a fixed
+// array length.
+func ruleG8(c *Ctx, r *Report, scope map[*ssa.Function]bool, invariants map[string]func(*Ctx, *Report, string) bool) int {
+	ts := runTaint(c)
+	n := 0
+	seen := map[string]bool{}
+	for _, f := range ts.funcs {
+		if scope != nil && !scope[f] {
+			continue
+		}
+		for _, b := range f.Blocks {
+			for _, ins := range b.Instrs {
+				var X, idx ssa.Value
+				isSlicing := false
+				switch x := ins.(type) {
+				case *ssa.IndexAddr:
+					X, idx = x.X, x.Index
+				case *ssa.Index:
+					X, idx = x.X, x.Index
+				case *ssa.Slice:
+					// s[a:b] with an untrusted bound
+					X = x.X
+					if x.High != nil && ts.get(x.High) != nil {
+						idx = x.High
+					} else if x.Low != nil && ts.get(x.Low) != nil {
+						idx = x.Low
+					} else {
+						continue
+					}
+					isSlicing = true
+				default:
+					continue
+				}
+				if _, isC := idx.(*ssa.Const); isC {
+					continue
+				}
+				t := ts.get(idx)
+				if t == nil {
+					continue
+				}
+				alen := int64(-1)
+				xt := X.Type().Underlying()
+				if pt, ok := xt.(*types.Pointer); ok {
+					xt = pt.Elem().Underlying()
+				}
+				switch a := xt.(type) {
+				case *types.Array:
+					alen = a.Len()
+				case *types.Slice:
+				case *types.Basic: // string
+				default:
+					continue
+				}
+				key := fmt.Sprintf("%s:%s[%s]", SSAFuncName(f), sliceText(c, f, ins.Pos()), idxText(c, f, ins.Pos()))
+				if isSlicing {
+					key = fmt.Sprintf("%s:%s[%s]", SSAFuncName(f), sliceText(c, f, ins.Pos()), sliceBoundsText(c, f, ins.Pos()))
+				}
+				if seen[key] {
+					continue
+				}
+				seen[key] = true
+				n++
+				if alen < 0 {
+					if l, ok := globalLiteralLen(c, X); ok {
+						alen = l
+					} else if sl, ok := X.(*ssa.Slice); ok && sl.Low == nil && sl.High == nil {
+						if pt, ok := sl.X.Type().Underlying().(*types.Pointer); ok {
+							if at, ok := pt.Elem().Underlying().(*types.Array); ok {
+								alen = at.Len() // a composite literal: slice of a fresh array
+							}
+						}
+					}
+				}
+				if alen >= 0 && t.bits < 63 && int64(1)<<uint(t.bits) <= alen {
+					r.OK("G8", key, c.Pos(ins.Pos()), fmt.Sprintf("the index has %d bits and the array %d elements", t.bits, alen))
+					continue
+				}
+				if alen >= 0 {
+					// fixed length: a dominating comparison on the value is accepted (its constant is not evaluated)
+					if ok, where := ts.guardedBy(b, t); ok {
+						r.OK("G8", key, c.Pos(ins.Pos()), fmt.Sprintf("the untrusted index (%d bits, from %s) is compared at %s before it is used", t.bits, rootNames(t), where))
+						continue
+					}
+				} else if where := ts.guardedByLen(f, b, t, X); where != "" {
+					r.OK("G8", key, c.Pos(ins.Pos()), fmt.Sprintf("the untrusted index (%d bits, from %s) is compared with the length of the slice at %s", t.bits, rootNames(t), where))
+					continue
+				}
+				if inv, ok := invariants[key]; ok && inv(c, r, key) {
+					continue
+				}
+				r.Bad("G8", key, c.Pos(ins.Pos()), fmt.Sprintf("an untrusted %d-bit value (from %s) is used as an index with no dominating comparison on it: index out of range panic", t.bits, rootNames(t)))
+			}
+		}
+	}
+	return n
+}
+
+func idxText(c *Ctx, f *ssa.Function, pos token.Pos) string {
+	var root ast.Node
+	top := f
+	for q := f; q != nil && root == nil; q = q.Parent() {
+		root = q.Syntax()
+	}
+	for top.Parent() != nil {
+		top = top.Parent()
+	}
+	var info *types.Info
+	if obj, ok := top.Object().(*types.Func); ok {
+		if _, pk := c.Decl(obj); pk != nil {
+			info = pk.TypesInfo
+		}
+	}
+	out := "expr"
+	if root != nil && pos.IsValid() {
+		ast.Inspect(root, func(n ast.Node) bool {
+			if ie, ok := n.(*ast.IndexExpr); ok && ie.Lbrack == pos {
+				out = canonExpr(info, ie.Index)
+			}
+			return true
+		})
+	}
+	return out
+}
+
+// globalLiteralLen: X is a load of a package-level slice variable that is initialised with a composite literal
+// and never assigned elsewhere in the repo: its length is the literal's.
+func globalLiteralLen(c *Ctx, X ssa.Value) (int64, bool) {
+	ld, ok := X.(*ssa.UnOp)
+	if !ok || ld.Op != token.MUL {
+		return 0, false
+	}
+	g, ok := ld.X.(*ssa.Global)
+	if !ok || g.Pkg == nil {
+		return 0, false
+	}
+	// stores outside the package initialiser
+	for _, f := range c.RepoFuncs(nil) {
+		if f.Name() == "init" && f.Pkg == g.Pkg && f.Synthetic != "" {
+			continue
+		}
+		for _, b := range f.Blocks {
+			for _, ins := range b.Instrs {
+				if st, ok := ins.(*ssa.Store); ok && st.Addr == g {
+					return 0, false
+				}
+			}
+		}
+	}
+	// the literal
+	for _, p := range c.Pkgs {
+		if p.Types != g.Pkg.Pkg {
+			continue
+		}
+		for _, file := range p.Syntax {
+			for _, d := range file.Decls {
+				gd, ok := d.(*ast.GenDecl)
+				if !ok || gd.Tok != token.VAR {
+					continue
+				}
+				for _, sp := range gd.Specs {
+					vs := sp.(*ast.ValueSpec)
+					for i, nm := range vs.Names {
+						if nm.Name != g.Name() || i >= len(vs.Values) {
+							continue
+						}
+						cl, ok := vs.Values[i].(*ast.CompositeLit)
+						if !ok {
+							return 0, false
+						}
+						for _, e := range cl.Elts {
+							if _, kv := e.(*ast.KeyValueExpr); kv {
+								return 0, false
+							}
+						}
+						return int64(len(cl.Elts)), true
+					}
+				}
+			}
+		}
+	}
+	return 0, false
+}
+
+// guardedByLen: a dominating comparison between a value sharing a taint root with t and the length of X
+// (len(X), or the value X was made with in this function).
+func (ts *taintState) guardedByLen(f *ssa.Function, b *ssa.BasicBlock, t *taintV, X ssa.Value) string {
+	var lens []ssa.Value
+	if mk := sliceOrigin(f, X, 0); mk != nil {
+		lens = append(lens, mk.Len)
+	}
+	isLen := func(v ssa.Value) bool {
+		v = stripConv(v)
+		if isLenOf(v, X) {
+			return true
+		}
+		for _, l := range lens {
+			if sameSSA(v, l) {
+				return true
+			}
+		}
+		if isLenField(ts.c, v, X) {
+			return true
+		}
+		// m := a; if m > len { m = len }: a value clamped to the length
+		if phi, ok := v.(*ssa.Phi); ok {
+			var idxs []int
+			for i, e := range phi.Edges {
+				if e != phi {
+					idxs = append(idxs, i)
+				}
+			}
+			for k := 0; k < 2 && len(idxs) == 2; k++ {
+				i, j := idxs[k], idxs[1-k]
+				l, a := stripConv(phi.Edges[i]), phi.Edges[j]
+				if !(isLenOf(l, X) || isLenField(ts.c, l, X)) {
+					continue
+				}
+				// the edge carrying a comes from the block that tested a > len (false arm)
+				pb := phi.Block().Preds[j]
+				if len(pb.Instrs) > 0 {
+					if ifi, ok := pb.Instrs[len(pb.Instrs)-1].(*ssa.If); ok {
+						if bo, ok := ifi.Cond.(*ssa.BinOp); ok && bo.Op == token.GTR && sameSSA(bo.X, a) &&
+							(isLenOf(stripConv(bo.Y), X) || isLenField(ts.c, stripConv(bo.Y), X)) && pb.Succs[1] == phi.Block() {
+							return true
+						}
+					}
+				}
+			}
+		}
+		// len(x) - c, len(x) - n
+		if bo, ok := v.(*ssa.BinOp); ok && (bo.Op == token.SUB || bo.Op == token.ADD) {
+			l := stripConv(bo.X)
+			if isLenOf(l, X) || isLenField(ts.c, l, X) {
+				if bo.Op == token.SUB {
+					return true
+				}
+				if _, isC := bo.Y.(*ssa.Const); isC {
+					return true
+				}
+			}
+		}
+		return false
+	}
+	where := ""
+	hasDominatingTest(nil, b, func(cond ssa.Value, truth bool) bool {
+		var visit func(v ssa.Value, depth int) bool
+		visit = func(v ssa.Value, depth int) bool {
+			if depth > 4 {
+				return false
+			}
+			switch x := v.(type) {
+			case *ssa.BinOp:
+				switch x.Op {
+				case token.LSS, token.LEQ, token.GTR, token.GEQ:
+					for i, o := range []ssa.Value{x.X, x.Y} {
+						other := []ssa.Value{x.Y, x.X}[i]
+						if !isLen(other) {
+							continue
+						}
+						if ot := ts.get(o); ot != nil {
+							for r := range ot.roots {
+								if t.roots[r] {
+									return true
+								}
+							}
+						}
+					}
+				}
+			case *ssa.UnOp:
+				if x.Op == token.NOT {
+					return visit(x.X, depth+1)
+				}
+			case *ssa.Phi:
+				for _, e := range x.Edges {
+					if visit(e, depth+1) {
+						return true
+					}
+				}
+			}
+			return false
+		}
+		if visit(cond, 0) {
+			where = ts.c.Pos(cond.Pos())
+			return true
+		}
+		return false
+	})
+	return where
+}
+
+// lengthFields: struct fields that always hold the length of a sibling slice field. The pairing is checked:
+// every store to the length field stores len(x) of the value stored to the slice field in the same function.
+var lengthFields = map[string][2]string{
+	"FixedSliceReader": {"slice", "len"},
+}
+
+var lengthFieldChecked = map[string]bool{}
+
+func isLenField(c *Ctx, v, X ssa.Value) bool {
+	ld, ok := v.(*ssa.UnOp)
+	if !ok || ld.Op != token.MUL {
+		return false
+	}
+	fa, ok := ld.X.(*ssa.FieldAddr)
+	if !ok {
+		return false
+	}
+	tn := typeName(fa.X.Type())
+	pair, ok := lengthFields[tn]
+	fv := fieldVar(fa.X.Type(), fa.Field)
+	if !ok || fv == nil || fv.Name() != pair[1] {
+		return false
+	}
+	xl, ok := X.(*ssa.UnOp)
+	if !ok {
+		return false
+	}
+	xa, ok := xl.X.(*ssa.FieldAddr)
+	if !ok || !sameSSA(xa.X, fa.X) {
+		return false
+	}
+	if xv := fieldVar(xa.X.Type(), xa.Field); xv == nil || xv.Name() != pair[0] {
+		return false
+	}
+	if done, seen := lengthFieldChecked[tn]; seen {
+		return done
+	}
+	good := true
+	n := 0
+	for _, f := range c.RepoFuncs(nil) {
+		lens := storesTo(f, tn+"."+pair[1])
+		sls := storesTo(f, tn+"."+pair[0])
+		if len(lens) == 0 && len(sls) == 0 {
+			continue
+		}
+		n++
+		if len(lens) != 1 || len(sls) != 1 || !isLenOf(lens[0].Val, sls[0].Val) {
+			good = false
+		}
+	}
+	lengthFieldChecked[tn] = good && n > 0
+	return lengthFieldChecked[tn]
+}
+
+// invOnlyCallerURL — FixedSliceReader.ReadPossiblyZeroTerminatedString(maxLen) reads up to maxLen bytes without
+// looking at the slice length: its only repo caller is DecodeURLBoxSR with maxLen = payloadLen()-4 after reading
+// 4 bytes, and G-SIZE makes sure the payload of a box is inside the slice.
+func invOnlyCallerURL(c *Ctx, r *Report, key string) bool {
+	bad := ""
+	n := 0
+	for _, f := range c.RepoFuncs(nil) {
+		if strings.HasSuffix(c.Fset.Position(f.Pos()).Filename, "_test.go") {
+			continue
+		}
+		for _, ci := range callsIn(f, ".ReadPossiblyZeroTerminatedString", false) {
+			if f.Synthetic != "" {
+				continue
+			}
+			n++
+			if SSAFuncName(f) != "mp4.DecodeURLBoxSR" {
+				bad += "called from " + SSAFuncName(f) + "; "
+				continue
+			}
+			args := ci.Common().Args
+			k := exprKey(args[len(args)-1], nil, 0)
+			want := ""
+			for _, p := range f.Params {
+				if p.Name() == "hdr" {
+					want = "(" + exprKey(p, nil, 0) + ".Size"
+				}
+			}
+			if !strings.Contains(k, ".Hdrlen") || !strings.Contains(k, ".Size") || !strings.HasSuffix(k, "-4)") || want == "" {
+				bad += "the count passed in DecodeURLBoxSR is not payloadLen()-4 (" + k + "); "
+			}
+			if len(callsIn(f, ".ReadUint32", false)) != 1 {
+				bad += "DecodeURLBoxSR does not read exactly one 32-bit word before the string; "
+			}
+		}
+	}
+	if n == 0 {
+		bad += "no caller; "
+	}
+	if bad == "" {
+		r.OK("G8", key, "", "invariant: only DecodeURLBoxSR calls it, with payloadLen()-4 after 4 bytes read; the payload is inside the slice by G-SIZE")
+	} else {
+		r.Bad("G8", key, "", "the reader indexes up to maxLen bytes without a test of the slice length: "+bad)
+	}
+	return true
+}
+
+// invRPSIndex — hevc.parseShortTermRPS indexes sps.ShortTermRefPicSets[idx-deltaIdx]: deltaIdx is tested to be
+// in 1..idx, every caller passes idx <= NumShortTermRefPicSets, and the slice is made with that length.
+func invRPSIndex(c *Ctx, r *Report, key string) bool {
+	f := c.ssaFunc(r, "G8", "hevc", "parseShortTermRPS")
+	if f == nil {
+		return true
+	}
+	bad := ""
+	// (1) a rejecting test `deltaIdx == 0 || deltaIdx > idx` dominates the index
+	var idxPar *ssa.Parameter
+	for _, p := range f.Params {
+		if p.Name() == "idx" {
+			idxPar = p
+		}
+	}
+	okGT, okZero := false, false
+	for _, b := range f.Blocks {
+		if len(b.Instrs) == 0 {
+			continue
+		}
+		ifi, ok := b.Instrs[len(b.Instrs)-1].(*ssa.If)
+		if !ok {
+			continue
+		}
+		bo, ok := ifi.Cond.(*ssa.BinOp)
+		if !ok {
+			continue
+		}
+		rejects := blockLeaves(b.Succs[0])
+		if bo.Op == token.GTR && idxPar != nil && sameSSA(bo.Y, idxPar) && rejects {
+			okGT = true
+		}
+		if bo.Op == token.EQL && rejects {
+			if cs, ok := constSet(bo.Y, 0); ok && len(cs) == 1 && cs[0] == 0 {
+				okZero = true
+			}
+		}
+		// a || b: the first test jumps to the same rejecting block
+		if bo.Op == token.EQL && len(b.Succs) == 2 {
+			if cs, ok := constSet(bo.Y, 0); ok && len(cs) == 1 && cs[0] == 0 {
+				for _, s := range b.Succs {
+					if blockLeaves(s) {
+						okZero = true
+					}
+				}
+			}
+		}
+	}
+	if !okGT || !okZero {
+		bad += "no rejecting test that deltaIdx is in 1..idx; "
+	}
+	// (2) callers
+	node := c.CallGraph().Nodes[f]
+	n := 0
+	if node != nil {
+		for _, e := range node.In {
+			if e.Site == nil {
+				continue
+			}
+			n++
+			arg := e.Site.Common().Args[1]
+			if isDirectFieldLoad(stripConv(arg), "SPS.NumShortTermRefPicSets") {
+				continue
+			}
+			if bound, incl, ok := inductionBound(arg); ok && !incl && isDirectFieldLoad(stripConv(bound), "SPS.NumShortTermRefPicSets") {
+				continue
+			}
+			bad += "the call in " + SSAFuncName(e.Caller.Func) + " passes an index not bounded by NumShortTermRefPicSets; "
+		}
+	}
+	if n == 0 {
+		bad += "no caller; "
+	}
+	// (3) the slice is made with that length
+	made := false
+	for _, g := range c.RepoFuncs(IsLib) {
+		if strings.HasSuffix(c.Fset.Position(g.Pos()).Filename, "_test.go") {
+			continue
+		}
+		for _, st := range storesTo(g, "SPS.ShortTermRefPicSets") {
+			mk, ok := st.Val.(*ssa.MakeSlice)
+			if ok && isDirectFieldLoad(stripConv(mk.Len), "SPS.NumShortTermRefPicSets") {
+				made = true
+			} else {
+				bad += SSAFuncName(g) + " stores ShortTermRefPicSets not made with NumShortTermRefPicSets elements; "
+			}
+		}
+	}
+	if !made {
+		bad += "ShortTermRefPicSets is never made with NumShortTermRefPicSets elements; "
+	}
+	if bad == "" {
+		r.OK("G8", key, "", fmt.Sprintf("invariant: deltaIdx in 1..idx is tested, the %d callers pass idx <= NumShortTermRefPicSets, and the slice is made with that length", n))
+	} else {
+		r.Bad("G8", key, "", "index idx-deltaIdx into ShortTermRefPicSets: "+bad)
+	}
+	return true
+}
+
+// ruleG9 — scanners: in a loop `for i < len(s)-k`, an index i+c into s (directly, or through a variable that
+// takes the value i+c and is used later) needs c <= k unless the use has its own dominating test against the
+// length. This is the bound arithmetic of the Annex B start-code scanners.
+func ruleG9(c *Ctx, r *Report, scope map[*ssa.Function]bool) int {
+	var fns []*ssa.Function
+	for f := range scope {
+		fns = append(fns, f)
+	}
+	sort.Slice(fns, func(i, j int) bool { return fns[i].String() < fns[j].String() })
+	n := 0
+	for _, f := range fns {
+		if f.Synthetic != "" {
+			continue
+		}
+		for _, l := range naturalLoops(f) {
+			hdr := l.header
+			if len(hdr.Instrs) == 0 {
+				continue
+			}
+			ifi, ok := hdr.Instrs[len(hdr.Instrs)-1].(*ssa.If)
+			if !ok {
+				continue
+			}
+			bo, ok := ifi.Cond.(*ssa.BinOp)
+			if !ok || (bo.Op != token.LSS && bo.Op != token.LEQ) || !l.blocks[hdr.Succs[0]] {
+				continue
+			}
+			ctr, ok := bo.X.(*ssa.Phi)
+			if !ok || ctr.Block() != hdr {
+				continue
+			}
+			// bound: len(s) - k
+			var lenCall *ssa.Call
+			k := int64(0)
+			bound := stripConv(bo.Y)
+			if sub, ok := bound.(*ssa.BinOp); ok && sub.Op == token.SUB {
+				if cs, ok := constSet(sub.Y, 0); ok && len(cs) == 1 {
+					k = cs[0]
+					bound = stripConv(sub.X)
+				}
+			}
+			if call, ok := bound.(*ssa.Call); ok {
+				if bi, ok := call.Call.Value.(*ssa.Builtin); ok && bi.Name() == "len" {
+					lenCall = call
+				}
+			}
+			if lenCall == nil {
+				continue
+			}
+			if bo.Op == token.LEQ {
+				k-- // i <= len-k  is  i < len-(k-1)
+			}
+			s := lenCall.Call.Args[0]
+			if _, isSl := s.Type().Underlying().(*types.Slice); !isSl {
+				continue
+			}
+			// derived values: v = i + c, and variables (phis) that only ever hold such values or constants
+			off := map[ssa.Value]int64{ctr: 0}
+			for _, b := range f.Blocks {
+				if !l.blocks[b] {
+					continue
+				}
+				for _, ins := range b.Instrs {
+					if x, ok := ins.(*ssa.BinOp); ok && x.Op == token.ADD && x.X == ssa.Value(ctr) {
+						if cs, ok := constSet(x.Y, 0); ok && len(cs) == 1 && cs[0] >= 0 {
+							off[x] = cs[0]
+						}
+					}
+				}
+			}
+			cand := map[*ssa.Phi]bool{}
+			for _, b := range f.Blocks {
+				for _, ins := range b.Instrs {
+					if x, ok := ins.(*ssa.Phi); ok && x != ctr && isIntType(x.Type()) {
+						cand[x] = true
+					}
+				}
+			}
+			for changed := true; changed; {
+				changed = false
+				for x := range cand {
+					for _, e := range x.Edges {
+						if _, isC := e.(*ssa.Const); isC {
+							continue
+						}
+						if ep, isPhi := e.(*ssa.Phi); isPhi && cand[ep] {
+							continue
+						}
+						if _, ok := off[e]; ok && e != ssa.Value(ctr) {
+							continue
+						}
+						delete(cand, x)
+						changed = true
+						break
+					}
+				}
+			}
+			for changed := true; changed; {
+				changed = false
+				for x := range cand {
+					best, have := int64(-1), false
+					for _, e := range x.Edges {
+						if o, ok := off[e]; ok {
+							if o > best {
+								best = o
+							}
+							have = true
+						}
+					}
+					if have {
+						if cur, seen := off[x]; !seen || cur != best {
+							off[x] = best
+							changed = true
+						}
+					}
+				}
+			}
+			// uses
+			loopText := srcOf(f, firstPos(hdr.Succs[0]), "loop", "for i < len-"+fmt.Sprint(k))
+			seen := map[string]bool{}
+			for _, b := range f.Blocks {
+				for _, ins := range b.Instrs {
+					ia, ok := ins.(*ssa.IndexAddr)
+					if !ok || !sameSSA(ia.X, s) {
+						continue
+					}
+					cOff, ok := off[ia.Index]
+					if !ok {
+						continue
+					}
+					if ia.Index == ssa.Value(ctr) && !l.blocks[b] {
+						continue // the counter after the loop is not bounded by the loop test
+					}
+					key := fmt.Sprintf("%s:%s[i+%d] in %s", SSAFuncName(f), sliceText(c, f, ia.Pos()), cOff, loopText)
+					if lenGuarded(ia.Index, s, ia.Block()) {
+						if !seen[key] && cOff <= k {
+							seen[key] = true
+							n++
+							r.OK("G9", key, c.Pos(ia.Pos()), "the index is compared with the length right before the use")
+						}
+						continue // a guarded use never decides the key when the offset is too large: look at the other uses
+					}
+					if seen[key] && cOff <= k {
+						continue
+					}
+					if seen[key] {
+						key += "#unguarded"
+					}
+					seen[key] = true
+					n++
+					if cOff <= k {
+						r.OK("G9", key, c.Pos(ia.Pos()), fmt.Sprintf("i < len-%d and the index is i+%d", k, cOff))
+					} else {
+						r.Bad("G9", key, c.Pos(ia.Pos()), fmt.Sprintf("the loop runs while i < len-%d but the element i+%d is read: index out of range at the end of the data", k, cOff))
+					}
+				}
+			}
+		}
+	}
+	return n
+}
+
+// lenGuarded: a dominating test compares idx with len(s) (or len(s)-c).
+func lenGuarded(idx, s ssa.Value, b *ssa.BasicBlock) bool {
+	found := false
+	hasDominatingTest(idx, b, func(cond ssa.Value, truth bool) bool {
+		bo, ok := cond.(*ssa.BinOp)
+		if !ok {
+			return false
+		}
+		for i, o := range []ssa.Value{bo.X, bo.Y} {
+			other := stripConv([]ssa.Value{bo.Y, bo.X}[i])
+			if !sameSSA(o, idx) {
+				continue
+			}
+			if sub, ok := other.(*ssa.BinOp); ok && sub.Op == token.SUB {
+				other = stripConv(sub.X)
+			}
+			if isLenOf(other, s) {
+				found = true
+				return true
+			}
+		}
+		return false
+	})
+	return found
+}
+
+// ruleG10 — a loop cursor that is advanced by an untrusted value must be wider than that value: a uint32 cursor
+// advanced by a 32-bit length wraps around, the loop test keeps succeeding and the walk never ends.
+func ruleG10(c *Ctx, r *Report, scope map[*ssa.Function]bool) int {
+	ts := runTaint(c)
+	n := 0
+	for _, f := range ts.funcs {
+		if scope != nil && !scope[f] {
+			continue
+		}
+		for _, l := range naturalLoops(f) {
+			for _, ins := range l.header.Instrs {
+				phi, ok := ins.(*ssa.Phi)
+				if !ok {
+					break
+				}
+				if !isIntType(phi.Type()) {
+					continue
+				}
+				// is the cursor used in an exit test of the loop?
+				inTest := false
+				for blk := range l.blocks {
+					if len(blk.Instrs) == 0 {
+						continue
+					}
+					if ifi, ok := blk.Instrs[len(blk.Instrs)-1].(*ssa.If); ok && (!l.blocks[blk.Succs[0]] || !l.blocks[blk.Succs[1]]) {
+						if dependsOnValue(ifi.Cond, phi, 0) {
+							inTest = true
+						}
+					}
+				}
+				if !inTest {
+					continue
+				}
+				// increments by tainted values inside the loop that flow back into the phi
+				var worst *taintV
+				var at token.Pos
+				var visit func(v ssa.Value, depth int)
+				seen := map[ssa.Value]bool{}
+				visit = func(v ssa.Value, depth int) {
+					if depth > 6 || seen[v] {
+						return
+					}
+					seen[v] = true
+					switch x := v.(type) {
+					case *ssa.BinOp:
+						if x.Op == token.ADD {
+							for i, o := range []ssa.Value{x.X, x.Y} {
+								other := []ssa.Value{x.Y, x.X}[i]
+								if t := ts.get(o); t != nil && dependsOnValue(other, phi, 0) {
+									if worst == nil || t.bits > worst.bits {
+										worst, at = t, x.Pos()
+									}
+								}
+							}
+							visit(x.X, depth+1)
+							visit(x.Y, depth+1)
+						}
+					case *ssa.Phi:
+						for _, e := range x.Edges {
+							visit(e, depth+1)
+						}
+					case *ssa.Convert:
+						visit(x.X, depth+1)
+					}
+				}
+				for i, e := range phi.Edges {
+					if l.blocks[l.header.Preds[i]] {
+						visit(e, 0)
+					}
+				}
+				if worst == nil {
+					continue
+				}
+				n++
+				key := fmt.Sprintf("%s:%s", SSAFuncName(f), srcOf(f, firstPos(l.header.Succs[0]), "loop", "loop"))
+				w := typeBits(phi.Type())
+				if worst.bits < w {
+					r.OK("G10", key, c.Pos(at), fmt.Sprintf("a %d-bit cursor is advanced by an untrusted value of at most %d bits", w, worst.bits))
+				} else {
+					r.Bad("G10", key, c.Pos(at), fmt.Sprintf("a %d-bit cursor is advanced by an untrusted %d-bit value (from %s): the sum wraps around, the loop test stays true and the walk never ends", w, worst.bits, rootNames(worst)))
+				}
+			}
+		}
+	}
+	return n
+}
+
+func dependsOnValue(v, target ssa.Value, depth int) bool {
+	if v == target {
+		return true
+	}
+	if depth > 5 {
+		return false
+	}
+	switch x := v.(type) {
+	case *ssa.BinOp:
+		return dependsOnValue(x.X, target, depth+1) || dependsOnValue(x.Y, target, depth+1)
+	case *ssa.Convert:
+		return dependsOnValue(x.X, target, depth+1)
+	case *ssa.UnOp:
+		return dependsOnValue(x.X, target, depth+1)
+	}
+	return false
+}
+
+func sliceBoundsText(c *Ctx, f *ssa.Function, pos token.Pos) string {
+	var root ast.Node
+	top := f
+	for q := f; q != nil && root == nil; q = q.Parent() {
+		root = q.Syntax()
+	}
+	for top.Parent() != nil {
+		top = top.Parent()
+	}
+	var info *types.Info
+	if obj, ok := top.Object().(*types.Func); ok {
+		if _, pk := c.Decl(obj); pk != nil {
+			info = pk.TypesInfo
+		}
+	}
+	out := ":"
+	if root != nil && pos.IsValid() {
+		ast.Inspect(root, func(n ast.Node) bool {
+			if se, ok := n.(*ast.SliceExpr); ok && se.Lbrack == pos {
+				lo, hi := "", ""
+				if se.Low != nil {
+					lo = canonExpr(info, se.Low)
+				}
+				if se.High != nil {
+					hi = canonExpr(info, se.High)
+				}
+				out = lo + ":" + hi
+			}
+			return true
+		})
+	}
+	return out
+}
+
+// invCursorWithinLen — FixedSliceReader keeps pos <= len: every store to pos stores 0, Length(), or a value under a
+// dominating test that mentions the length (len field or Length()). ReadPossiblyZeroTerminatedString is covered by
+// its own invariant (its only caller passes a count inside the box).
+func invCursorWithinLen(c *Ctx, r *Report, key string) bool {
+	bad := ""
+	n := 0
+	mentionsLen := func(v ssa.Value) bool {
+		found := false
+		var visit func(v ssa.Value, d int)
+		visit = func(v ssa.Value, d int) {
+			if d > 5 || found {
+				return
+			}
+			switch x := v.(type) {
+			case *ssa.UnOp:
+				if isDirectFieldLoad(x, "FixedSliceReader.len") {
+					found = true
+				}
+				visit(x.X, d+1)
+			case *ssa.Call:
+				if strings.HasSuffix(calleeName(x.Common()), "FixedSliceReader.Length") {
+					found = true
+				}
+			case *ssa.BinOp:
+				visit(x.X, d+1)
+				visit(x.Y, d+1)
+			case *ssa.Convert:
+				visit(x.X, d+1)
+			case *ssa.Phi:
+				for _, e := range x.Edges {
+					visit(e, d+1)
+				}
+			}
+		}
+		visit(v, 0)
+		return found
+	}
+	for _, f := range c.RepoFuncs(IsLib) {
+		if strings.HasSuffix(c.Fset.Position(f.Pos()).Filename, "_test.go") {
+			continue
+		}
+		for _, st := range storesTo(f, "FixedSliceReader.pos") {
+			n++
+			if f.Name() == "ReadPossiblyZeroTerminatedString" {
+				continue
+			}
+			if cs, ok := constSet(st.Val, 0); ok && len(cs) == 1 && cs[0] == 0 {
+				continue
+			}
+			if mentionsLen(st.Val) {
+				continue
+			}
+			ok := false
+			for d := st.Block(); d != nil; d = d.Idom() {
+				id := d.Idom()
+				if id == nil || len(id.Instrs) == 0 {
+					continue
+				}
+				if ifi, isIf := id.Instrs[len(id.Instrs)-1].(*ssa.If); isIf && mentionsLen(ifi.Cond) {
+					ok = true
+				}
+			}
+			// clamped bound: compared with a phi that was clamped to len
+			if !ok {
+				for d := st.Block(); d != nil; d = d.Idom() {
+					id := d.Idom()
+					if id == nil || len(id.Instrs) == 0 {
+						continue
+					}
+					if ifi, isIf := id.Instrs[len(id.Instrs)-1].(*ssa.If); isIf {
+						if bo, isBo := ifi.Cond.(*ssa.BinOp); isBo {
+							for _, o := range []ssa.Value{bo.X, bo.Y} {
+								if phi, isPhi := o.(*ssa.Phi); isPhi && mentionsLen(phi) {
+									ok = true
+								}
+							}
+						}
+					}
+				}
+			}
+			if !ok {
+				bad += SSAFuncName(f) + " moves the cursor without a test against the length; "
+			}
+		}
+	}
+	if n < 10 {
+		bad += fmt.Sprintf("only %d cursor updates found; ", n)
+	}
+	if bad == "" {
+		r.OK("G8", key, "", fmt.Sprintf("invariant: all %d updates of FixedSliceReader.pos are 0, Length() or follow a test against the length, so pos <= len and slicing at pos is in range", n))
+	} else {
+		r.Bad("G8", key, "", "slicing at the cursor relies on pos <= len: "+bad)
+	}
+	return true
+}
